@@ -690,6 +690,67 @@ func vC03ErrCode(err error) int {
 	return 99
 }
 
+// MarshalBinary with a panic turned into an error
+func vC03MarshalPk(pk Packet) (b []byte, err error, panicked bool) {
+	defer func() {
+		if r := recover(); r != nil {
+			b, err, panicked = nil, nil, true
+		}
+	}()
+	b, err = pk.MarshalBinary()
+	return b, err, false
+}
+
+// the payload the protocol defines for a packet (RTMP specification 5.4 and 7.1/7.2): control
+// packets field by field in network byte order, the user control event data 4 bytes wide except
+// SetBufferLength (stream id + buffer length, 8) and the one-byte FMS event 0x1a; command
+// messages as the AMF0 encodings of their fields in order (each field encoded by package amf0
+// on its own, so the layout is judged, not AMF0)
+func vC03RefPayload(p *vC03Pkt) []byte {
+	be32 := func(v uint32) []byte { return []byte{byte(v >> 24), byte(v >> 16), byte(v >> 8), byte(v)} }
+	switch p.kind {
+	case 7, 8:
+		return be32(p.n)
+	case 9:
+		return append(be32(p.n), p.lt)
+	case 10:
+		b := []byte{byte(p.et >> 8), byte(p.et)}
+		switch p.et {
+		case 0x1a:
+			return append(b, byte(p.d))
+		case 3:
+			return append(append(b, be32(p.d)...), be32(p.x)...)
+		}
+		return append(b, be32(p.d)...)
+	}
+	var out []byte
+	add := func(a amf0.Amf0) {
+		if a != nil && !reflect.ValueOf(a).IsNil() {
+			b, _ := a.MarshalBinary()
+			out = append(out, b...)
+		}
+	}
+	add(amf0.NewString(string(p.name)))
+	add(amf0.NewNumber(math.Float64frombits(p.tid)))
+	if p.obj != nil {
+		add(vC03Build(p.obj))
+	}
+	switch p.kind {
+	case 0, 1, 2:
+		if p.args != nil {
+			add(vC03Build(p.args))
+		}
+	case 4:
+		add(amf0.NewNumber(math.Float64frombits(p.sid)))
+	case 5:
+		add(amf0.NewString(string(p.sname)))
+		add(amf0.NewString(string(p.stype)))
+	case 6:
+		add(amf0.NewString(string(p.sname)))
+	}
+	return out
+}
+
 // observation of a decoded packet: fields, Size(), re-marshalled bytes
 func vC03ObsPkt(pk Packet, err error, panicked bool) vSx {
 	if panicked {
@@ -698,7 +759,10 @@ func vC03ObsPkt(pk Packet, err error, panicked bool) vSx {
 	if err != nil {
 		return vErr(vC03ErrCode(err))
 	}
-	b, merr := pk.MarshalBinary()
+	b, merr, mpan := vC03MarshalPk(pk)
+	if mpan {
+		return vPanicObs()
+	}
 	if merr != nil {
 		b = []byte("marshal-error")
 	}
@@ -893,13 +957,23 @@ func vC03RunCodec(c vSx, res *vC03Res) {
 	}
 	res.hist = "codec-" + vC03KindName(p.kind)
 	pk := vC03BuildPkt(p)
-	b, err := pk.MarshalBinary()
+	b, err, mpan := vC03MarshalPk(pk)
+	if mpan {
+		res.bad("no-panic", "MarshalBinary of "+vC03KindName(p.kind)+" panicked")
+		res.obs = vPanicObs()
+		return
+	}
 	if err != nil {
 		res.bad("marshal", "MarshalBinary failed: "+err.Error())
 		res.obs = vErr(98)
 		return
 	}
 	size := pk.Size()
+	if vC03Wf(p) {
+		if ref := vC03RefPayload(vC03Canon(p)); !bytes.Equal(ref, b) {
+			res.bad("layout", fmt.Sprintf("%s marshals to %x, the protocol defines %x", vC03KindName(p.kind), b, ref))
+		}
+	}
 	rcv := vC03New(p.kind, p.tid)
 	uerr, pan := vC03Unmarshal(rcv, b)
 	res.obs = vOk(vB(b), vI(size), vI(int(pk.Type())), vI(int(pk.BetterCid())), vC03ObsPkt(rcv, uerr, pan))
@@ -923,7 +997,7 @@ func vC03RunCodec(c vSx, res *vC03Res) {
 		if rcv.Size() != size {
 			res.bad("roundtrip", fmt.Sprintf("Size() after round trip %d, before %d", rcv.Size(), size))
 		}
-		if b2, e2 := rcv.MarshalBinary(); e2 != nil || !bytes.Equal(b2, b) {
+		if b2, e2, p2 := vC03MarshalPk(rcv); p2 || e2 != nil || !bytes.Equal(b2, b) {
 			res.bad("remarshal", "re-marshalling the decoded packet gives different bytes")
 		}
 	}
@@ -950,8 +1024,8 @@ func vC03RunRaw(c vSx, res *vC03Res) {
 	}
 	if err == nil {
 		res.hist += "-ok"
-		b, e2 := rcv.MarshalBinary()
-		if e2 != nil || len(b) != rcv.Size() {
+		b, e2, p2 := vC03MarshalPk(rcv)
+		if p2 || e2 != nil || len(b) != rcv.Size() {
 			res.bad("size", "decoded packet: len(MarshalBinary) != Size()")
 		}
 		if rcv.Size() > len(data) {
@@ -983,28 +1057,60 @@ func vC03RunHist(c vSx, res *vC03Res) {
 		var err error
 		var pan bool
 		switch e.l[0].int() {
-		case 0:
-			p, ok := vC03PktFromSx(e.l[2])
-			if !ok || len(e.l) != 3 {
+		case 0, 2:
+			// (0 dir pkt): WritePacket.  (2 dir mt pkt): the same command carried in another
+			// command/data message type (17 and 15 are the AMF3 carriers: one format byte 0,
+			// then the AMF0 body; 18 is the AMF0 data message), written with WriteMessage
+			carrier := e.l[0].int() == 2
+			pi := 2
+			if carrier {
+				pi = 3
+			}
+			if len(e.l) != pi+1 || (carrier && !e.l[2].isInt()) {
+				res.obs = vL(vZ(-1))
+				return
+			}
+			p, ok := vC03PktFromSx(e.l[pi])
+			if !ok || (carrier && p.kind > 6) {
 				res.obs = vL(vZ(-1))
 				return
 			}
 			sp := vC03BuildPkt(p)
-			want, _ := sp.MarshalBinary()
-			if werr := snd.WritePacket(sp, 1); werr != nil {
-				res.bad("wire", fmt.Sprintf("event %d: WritePacket failed: %v", ei, werr))
-				res.obs = vErr(97)
+			want, _, mpan := vC03MarshalPk(sp)
+			if mpan {
+				res.bad("no-panic", fmt.Sprintf("event %d: MarshalBinary panicked", ei))
+				res.obs = vPanicObs()
 				return
 			}
-			abs[dir].sent(p)
+			sentType, sentPayload := sp.Type(), want
+			if carrier {
+				sentType = MessageType(e.l[2].u64())
+				if sentType == 17 || sentType == 15 {
+					sentPayload = append([]byte{0}, want...)
+				}
+				m := NewStreamMessage(1)
+				m.MessageType, m.Payload = sentType, sentPayload
+				if werr := snd.WriteMessage(m); werr != nil {
+					res.bad("wire", fmt.Sprintf("event %d: WriteMessage failed: %v", ei, werr))
+					res.obs = vErr(97)
+					return
+				}
+			} else {
+				if werr := snd.WritePacket(sp, 1); werr != nil {
+					res.bad("wire", fmt.Sprintf("event %d: WritePacket failed: %v", ei, werr))
+					res.obs = vErr(97)
+					return
+				}
+				abs[dir].sent(p)
+			}
 			m, rerr := rcv.ReadMessage()
 			if rerr != nil {
 				res.bad("wire", fmt.Sprintf("event %d: ReadMessage failed: %v", ei, rerr))
 				res.obs = vErr(97)
 				return
 			}
-			if m.MessageType != sp.Type() || !bytes.Equal(m.Payload, want) {
-				res.bad("wire", fmt.Sprintf("event %d: message arrived with type %d and a %d byte payload, sent type %d, %d bytes", ei, m.MessageType, len(m.Payload), sp.Type(), len(want)))
+			if m.MessageType != sentType || !bytes.Equal(m.Payload, sentPayload) {
+				res.bad("wire", fmt.Sprintf("event %d: message arrived with type %d and a %d byte payload, sent type %d, %d bytes", ei, m.MessageType, len(m.Payload), sentType, len(sentPayload)))
 			}
 			pk, err, pan = vC03Decode(rcv, m.MessageType, m.Payload)
 			// dispatch and transaction oracles
@@ -1030,7 +1136,7 @@ func vC03RunHist(c vSx, res *vC03Res) {
 					} else if !vC03PktEqual(got, vC03Canon(p)) {
 						res.bad("dispatch", fmt.Sprintf("event %d: fields differ on arrival: sent %s got %s", ei, vC03PktSx(vC03Canon(p)), vC03PktSx(got)))
 					}
-					if b2, e2 := pk.MarshalBinary(); e2 != nil || !bytes.Equal(b2, want) {
+					if b2, e2, p2 := vC03MarshalPk(pk); p2 || e2 != nil || !bytes.Equal(b2, want) {
 						res.bad("remarshal", fmt.Sprintf("event %d: re-marshalling the arrived packet differs from the payload", ei))
 					}
 				}
@@ -1128,7 +1234,7 @@ func vC03Msgs(l []vSx) ([]vC03Msg, bool) {
 				return nil, false
 			}
 			pk := vC03BuildPkt(p)
-			b, _ := pk.MarshalBinary()
+			b, _, _ := vC03MarshalPk(pk)
 			out = append(out, vC03Msg{pk.Type(), b, p})
 		case 1:
 			if len(s.l) != 3 || !s.l[1].isInt() || !s.l[2].isBytes() {
@@ -1677,7 +1783,7 @@ func vC03GenCodec(r *vRng) vSx {
 }
 
 func vC03Marshal(p *vC03Pkt) []byte {
-	b, _ := vC03BuildPkt(p).MarshalBinary()
+	b, _, _ := vC03MarshalPk(vC03BuildPkt(p))
 	return b
 }
 
@@ -1750,6 +1856,7 @@ func vC03GenHistPkt(r *vRng) *vC03Pkt {
 func vC03GenHist(r *vRng) vSx {
 	var es []vSx
 	n := r.rng(1, 14)
+	pending := [][]uint64{nil, nil} // tids each endpoint has asked with (generator's bookkeeping only)
 	for i := 0; i < n; i++ {
 		dir := r.intn(2)
 		if r.chance(1, 7) {
@@ -1762,13 +1869,25 @@ func vC03GenHist(r *vRng) vSx {
 			es = append(es, vL(vZ(1), vI(dir), vI(mt), vB(pl)))
 			continue
 		}
-		es = append(es, vL(vZ(0), vI(dir), vC03PktSx(vC03GenHistPkt(r))))
+		p := vC03GenHistPkt(r)
+		if (p.kind == 1 || p.kind == 4) && len(pending[1-dir]) > 0 && r.chance(3, 4) {
+			// answer a request of the peer (possibly a second time, possibly with the other response shape)
+			p.tid = pending[1-dir][r.intn(len(pending[1-dir]))]
+		}
+		if p.kind <= 6 && r.chance(1, 6) {
+			es = append(es, vL(vZ(2), vI(dir), vI(r.pickInt(17, 15, 18, 17)), vC03PktSx(p)))
+			continue
+		}
+		if p.kind == 0 || p.kind == 3 {
+			pending[dir] = append(pending[dir], p.tid)
+		}
+		es = append(es, vL(vZ(0), vI(dir), vC03PktSx(p)))
 	}
 	return vL(vZ(2), vLs(es))
 }
 
-func vC03GenMsgs(r *vRng, rawOK bool) []vSx {
-	var ms []vSx
+// traffic for the typed waits: packets (with their kinds) and, if rawOK, some raw messages
+func vC03GenMsgs(r *vRng, rawOK bool, pre []*vC03Pkt) (ms []vSx, kinds []int, types []int) {
 	n := r.rng(0, 9)
 	for i := 0; i < n; i++ {
 		if rawOK && r.chance(1, 9) {
@@ -1781,31 +1900,71 @@ func vC03GenMsgs(r *vRng, rawOK bool) []vSx {
 				}
 			}
 			ms = append(ms, vL(vZ(1), vI(mt), vB(pl)))
+			kinds = append(kinds, -1)
+			types = append(types, mt)
 			continue
 		}
-		ms = append(ms, vL(vZ(0), vC03PktSx(vC03GenHistPkt(r))))
+		var p *vC03Pkt
+		switch {
+		case len(pre) > 0 && r.chance(1, 4):
+			// a response to one of the requests written before (or, rarely, to none)
+			q := pre[r.intn(len(pre))]
+			p = vC03GenPkt(r, map[int]int{0: 1, 3: 4}[q.kind], true, false)
+			p.tid = q.tid
+			if r.chance(1, 8) {
+				p.tid = vC03GenTid(r)
+			}
+		case r.chance(1, 12):
+			p = vC03GenHistPkt(r)
+		default:
+			p = vC03GenPkt(r, r.pickInt(0, 2, 2, 3, 5, 6, 7, 8, 9, 10, 10), true, false)
+			if p.kind == 7 && p.n == 0 {
+				p.n = 4096
+			}
+		}
+		ms = append(ms, vL(vZ(0), vC03PktSx(p)))
+		kinds = append(kinds, p.kind)
+		types = append(types, map[bool]int{true: 20, false: map[int]int{7: 1, 8: 5, 9: 6, 10: 4}[p.kind]}[p.kind <= 6])
 	}
-	return ms
+	return
 }
 
 func vC03GenExpectPacket(r *vRng) vSx {
 	var pre []vSx
+	var prep []*vC03Pkt
 	for i, n := 0, r.intn(4); i < n; i++ {
 		p := vC03GenPkt(r, r.pickInt(0, 3, 3), true, false)
 		if p.kind == 3 {
 			p.tid = vC03GenTid(r)
 		}
 		pre = append(pre, vC03PktSx(p))
+		prep = append(prep, p)
 	}
-	return vL(vZ(3), vI(r.pickInt(0, 1, 2, 3, 4, 5, 6, 7, 8, 9, 10, 11, 5, 4)), vLs(pre), vLs(vC03GenMsgs(r, r.chance(1, 3))))
+	ms, kinds, _ := vC03GenMsgs(r, r.chance(1, 3), prep)
+	want := r.pickInt(0, 1, 2, 3, 4, 5, 6, 7, 8, 9, 10, 11)
+	if len(kinds) > 0 && r.chance(5, 6) {
+		// wait for the kind of one of the messages, usually not the first
+		if k := kinds[r.intn(len(kinds))]; k >= 0 {
+			want = k
+		}
+	}
+	return vL(vZ(3), vI(want), vLs(pre), vLs(ms))
 }
 
 func vC03GenExpectMessage(r *vRng) vSx {
+	ms, _, types := vC03GenMsgs(r, r.chance(1, 3), nil)
 	var ts []vSx
-	for i, n := 0, r.intn(3); i < n; i++ {
-		ts = append(ts, vI(r.pickInt(20, 1, 4, 5, 6, 8, 9, 18)))
+	if len(types) > 0 && r.chance(5, 6) {
+		ts = append(ts, vI(types[r.intn(len(types))]))
+		if r.chance(1, 4) {
+			ts = append(ts, vI(r.pickInt(20, 1, 4, 5, 6, 8, 9, 18)))
+		}
+	} else {
+		for i, n := 0, r.intn(3); i < n; i++ {
+			ts = append(ts, vI(r.pickInt(20, 1, 4, 5, 6, 8, 9, 18)))
+		}
 	}
-	return vL(vZ(4), vLs(ts), vLs(vC03GenMsgs(r, r.chance(1, 3))))
+	return vL(vZ(4), vLs(ts), vLs(ms))
 }
 
 func vC03Gen(r *vRng) vSx {
